@@ -252,4 +252,32 @@ def Manager.step (m : Manager) : MOp → Manager
 
 def Manager.run (m : Manager) (ops : List MOp) : Manager := ops.foldl Manager.step m
 
+/-! ### the names a client session derives from the configured prefix (newClientSession)
+
+  `prefix ++ "_epoch_" ++ decimal epoch ++ "_" ++ decimal randID ++ "_queue_" ++ decimal sessionID`; for a file-backed
+  mapping every derived name must fit `fileNameMaxLen`.  The check is made on the prefix alone, with a reserve for the
+  longest suffixes, so that a configuration accepted for the first sessions is accepted for every later epoch. -/
+
+/-- number of decimal digits (strconv.Itoa / FormatUint) -/
+def digits (n : Nat) : Nat := (Nat.toDigits 10 n).length
+
+def epochInfoMaxLen : Nat := 7 + 20 + 1 + 20
+def queueInfoMaxLen : Nat := 7 + 20
+def fileNameMaxLen : Nat := 255
+
+/-- memfd_create(2): at most 249 bytes, and the library puts "shmipc" (6 bytes) in front -/
+def memfdNameMaxLen : Nat := 249
+def memfdCreateNameLen : Nat := 6
+
+/-- the up-front check of newClientSession (file-backed mapping) -/
+def prefixAccepted (prefixLen : Nat) : Bool := decide (prefixLen + epochInfoMaxLen + queueInfoMaxLen ≤ fileNameMaxLen)
+
+/-- the up-front check of newClientSession (memfd mapping; repaired code) -/
+def prefixAcceptedMemfd (prefixLen : Nat) : Bool :=
+  decide (memfdCreateNameLen + prefixLen + epochInfoMaxLen + queueInfoMaxLen ≤ memfdNameMaxLen)
+
+/-- length of the queue path newClientSession derives -/
+def queuePathLen (prefixLen epoch rand id : Nat) : Nat :=
+  prefixLen + (if epoch > 0 then 7 + digits epoch + 1 + digits rand else 0) + 7 + digits id
+
 end Restart
